@@ -63,7 +63,6 @@ private:
     // First transform back the Ritz values, and then sort
     void sort_ritzpair(SortRule sort_rule) override
     {
-        using std::abs;
         using std::sqrt;
         using std::norm;
 
@@ -94,7 +93,6 @@ private:
 
         // Calculate inv(A - r * I) * vj
         Vector v_real(m_n), v_imag(m_n), OPv_real(m_n), OPv_imag(m_n);
-        const Scalar eps = TypeTraits<Scalar>::epsilon();
         for (Index i = 0; i < m_nev; i++)
         {
             v_real.noalias() = m_fac.matrix_V() * m_ritz_vec.col(i).real();
@@ -123,7 +121,10 @@ private:
             const Complex lambdaj = (err1 < err2) ? root1 : root2;
             m_ritz_val[i] = lambdaj;
 
-            if (abs(Eigen::numext::imag(lambdaj)) > eps)
+            // A complex Ritz value is followed by its exact conjugate, and a real one
+            // (imaginary part exactly zero) belongs to a real eigenvalue. Decide by nu:
+            // the square root above can give a real lambda a rounding-level imaginary part
+            if (Eigen::numext::imag(nu) != Scalar(0))
             {
                 m_ritz_val[i + 1] = Eigen::numext::conj(lambdaj);
                 i++;
